@@ -80,24 +80,25 @@ type Term struct {
 }
 
 type Pool struct {
-	terms      map[string]*Term
-	next       int
-	arraySorts map[string]*Sort
-	uSorts     map[string]*Sort
-	dSorts     map[string]*Sort
-	dOrder     []*Sort
-	funcs      map[string]*FuncDecl
-	fOrder     []*FuncDecl
-	consts     map[string]*Term
-	cOrder     []*Term
-	freshN     map[string]int
-	DistinctFn func(a, b *Term) bool
+	terms       map[string]*Term
+	next        int
+	arraySorts  map[string]*Sort
+	uSorts      map[string]*Sort
+	dSorts      map[string]*Sort
+	dOrder      []*Sort
+	funcs       map[string]*FuncDecl
+	fOrder      []*FuncDecl
+	consts      map[string]*Term
+	cOrder      []*Term
+	freshN      map[string]int
+	DistinctFn  func(a, b *Term) bool
+	selMemo     map[[2]int]*Term
 	RecAsDefine bool // emit recursive spec functions as define-fun-rec (used for ground replay queries)
 }
 
 func NewPool() *Pool {
 	return &Pool{terms: map[string]*Term{}, arraySorts: map[string]*Sort{}, uSorts: map[string]*Sort{},
-		dSorts: map[string]*Sort{}, funcs: map[string]*FuncDecl{}, consts: map[string]*Term{}, freshN: map[string]int{}}
+		dSorts: map[string]*Sort{}, funcs: map[string]*FuncDecl{}, consts: map[string]*Term{}, freshN: map[string]int{}, selMemo: map[[2]int]*Term{}}
 }
 
 func (p *Pool) ArraySort(idx, elem *Sort) *Sort {
@@ -443,6 +444,12 @@ func (p *Pool) Eq(a, b *Term) *Term {
 	if a.Op == "int" && b.Op == "int" {
 		return p.Bool(a.Int.Cmp(b.Int) == 0)
 	}
+	if litIte(a) && b.Op == "int" {
+		return p.Ite(a.Args[0], p.Eq(a.Args[1], b), p.Eq(a.Args[2], b))
+	}
+	if litIte(b) && a.Op == "int" {
+		return p.Ite(b.Args[0], p.Eq(a, b.Args[1]), p.Eq(a, b.Args[2]))
+	}
 	if a.Sort.Kind == SBool {
 		if a.IsTrue() {
 			return b
@@ -566,7 +573,17 @@ func (p *Pool) Neg(a *Term) *Term {
 	return p.Sub(p.Int(0), a)
 }
 
+func litIte(t *Term) bool {
+	return t.Op == "ite" && t.Args[1].Op == "int" && t.Args[2].Op == "int"
+}
+
 func (p *Pool) cmp(op string, a, b *Term) *Term {
+	if litIte(a) && b.Op == "int" {
+		return p.Ite(a.Args[0], p.cmp(op, a.Args[1], b), p.cmp(op, a.Args[2], b))
+	}
+	if litIte(b) && a.Op == "int" {
+		return p.Ite(b.Args[0], p.cmp(op, a, b.Args[1]), p.cmp(op, a, b.Args[2]))
+	}
 	if a.Op == "int" && b.Op == "int" {
 		c := a.Int.Cmp(b.Int)
 		switch op {
@@ -618,6 +635,16 @@ func (p *Pool) Select(a, i *Term) *Term {
 	if a.Sort.Kind != SArray {
 		panic("select on non-array " + a.Sort.String())
 	}
+	key := [2]int{a.id, i.id}
+	if r, ok := p.selMemo[key]; ok {
+		return r
+	}
+	r := p.select1(a, i)
+	p.selMemo[key] = r
+	return r
+}
+
+func (p *Pool) select1(a, i *Term) *Term {
 	for a.Op == "store" {
 		if a.Args[1] == i {
 			return a.Args[2]
